@@ -5,3 +5,4 @@ pub mod c19;
 pub mod c20;
 pub mod mrec;
 pub mod c03;
+pub mod rules;
